@@ -287,6 +287,10 @@ def gen_cases(ctx):
     if ctx.thorough:
         for _ in range(30):
             c = gen_case(rng, engine="spark")
+            while any(not t for t in c["tables"]):
+                # pyspark cannot build a DataFrame from an empty pandas frame (CANNOT_INFER_EMPTY_SCHEMA): an input-conversion
+                # limit of the harness's way of handing tables to Spark, not blocking; empty tables are covered on DuckDB/SQLite
+                c = gen_case(rng, engine="spark")
             c["with_arr"] = False
             c["rules"] = [r for r in c["rules"] if r["kind"] != "exploding"]
             cases.append(c)
